@@ -50,8 +50,34 @@ def scan_file(path, rel):
             return 'hash'
         return None
 
+    SETOPS = (ast.BitOr, ast.BitAnd, ast.Sub, ast.BitXor)
+    SETMETHODS = ('union', 'intersection', 'difference', 'symmetric_difference', 'copy')
+    setnames = [set()]      # names bound to a set in the function being walked (flow-insensitive, per function)
+
     def is_set_expr(n):
-        return isinstance(n, (ast.Set, ast.SetComp)) or (isinstance(n, ast.Call) and unparse(n.func) in ('set', 'frozenset'))
+        if isinstance(n, (ast.Set, ast.SetComp)) or (isinstance(n, ast.Call) and unparse(n.func) in ('set', 'frozenset')):
+            return True
+        if isinstance(n, ast.Name) and n.id in setnames[0]:
+            return True
+        if isinstance(n, ast.BinOp) and isinstance(n.op, SETOPS) and (is_set_expr(n.left) or is_set_expr(n.right)):
+            return True
+        if isinstance(n, ast.Call) and isinstance(n.func, ast.Attribute) and n.func.attr in SETMETHODS and is_set_expr(n.func.value):
+            return True
+        return False
+
+    def bound_sets(fn_node):
+        """ local names assigned a set anywhere in this function (two passes: sets built from other local sets) """
+        names = set()
+        for _ in range(2):
+            setnames[0] = names
+            for st in ast.walk(fn_node):
+                if isinstance(st, ast.Assign) and is_set_expr(st.value):
+                    names |= {t.id for t in st.targets if isinstance(t, ast.Name)}
+                elif isinstance(st, ast.AnnAssign) and st.value is not None and is_set_expr(st.value) and isinstance(st.target, ast.Name):
+                    names.add(st.target.id)
+                elif isinstance(st, ast.AugAssign) and isinstance(st.op, SETOPS) and isinstance(st.target, ast.Name) and is_set_expr(st.value):
+                    names.add(st.target.id)
+        return names
 
     ORDER_CONSUMERS = {'list', 'tuple', 'np.array', 'np.asarray', 'enumerate', 'iter', 'next', 'ss.uids', 'np.fromiter', 'zip', 'dict.fromkeys'}
 
@@ -63,6 +89,8 @@ def scan_file(path, rel):
             return True
         if isinstance(n, ast.comprehension) and is_set_expr(n.iter):
             return True
+        if isinstance(n, ast.Call) and isinstance(n.func, ast.Attribute) and n.func.attr == 'pop' and not n.args and is_set_expr(n.func.value):
+            return True     # set.pop(): an arbitrary element
         return False
 
     def walk(node, cls, fn):
@@ -70,7 +98,10 @@ def scan_file(path, rel):
             if isinstance(ch, ast.ClassDef):
                 walk(ch, ch.name, fn)
             elif isinstance(ch, (ast.FunctionDef, ast.AsyncFunctionDef)):
+                outer = setnames[0]
+                setnames[0] = outer | bound_sets(ch)
                 walk(ch, cls, ch.name if fn is None else fn + '.' + ch.name)
+                setnames[0] = outer
             else:
                 if isinstance(ch, ast.Call):
                     k = classify(ch)
